@@ -552,6 +552,19 @@ pub fn random_setup(rng: &mut Rng) -> Pos {
                 }
             }
         }
+        // legal material only (what a game can produce: promoted surplus + pawns <= 8 per side,
+        // which admits nine queens) - the domain of the properties and of the theorems
+        let mut legal = true;
+        for c in [Color::White, Color::Black] {
+            let count = |pc: Piece| p.cells.iter().filter(|x| **x == Some((pc, c))).count() as i32;
+            let surplus = (count(Piece::Knight) - 2).max(0) + (count(Piece::Bishop) - 2).max(0) + (count(Piece::Rook) - 2).max(0) + (count(Piece::Queen) - 1).max(0);
+            if count(Piece::Pawn) + surplus > 8 {
+                legal = false;
+            }
+        }
+        if !legal {
+            continue;
+        }
         p.turn = if rng.chance(1, 2) { Color::White } else { Color::Black };
         let other = p.turn.opposite();
         let ok = if other == Color::White { wk } else { bk };
@@ -965,6 +978,90 @@ fn schedules(e: &mut Exec, rng: &mut Rng, kv: &Args, positions: &[(String, Pos)]
             }
         }
     }
+}
+
+/// positions that are revisited after an en-passant (or castling) opportunity has expired:
+/// from a position with an en-passant target, both sides shuffle a piece out and back, which
+/// restores the placement without the target.  With a long-lived generator / search context the
+/// second visit must not be served the first visit's answers (C02, C07, C06 cached variants).
+fn revisits(e: &mut Exec, rng: &mut Rng, kv: &Args, positions: &[(String, Pos)]) {
+    let node_ops = e.node_ops.clone();
+    let searching = kv.num("search", 0) == 1;
+    let mut done = 0;
+    for (name, p) in positions {
+        e.line(&format!("# revisit {}", name));
+        e.exec(&format!("pos {}", p.line()));
+        if p.ep.is_none() {
+            // create an en-passant opportunity: a double step after which the opponent may capture en passant
+            let ms = e.legal();
+            let mut found = false;
+            for m in ms.iter() {
+                let (f, t) = (idx(m.from_square()), idx(m.to_square()));
+                let is_pawn = e.ctx.board.get(m.from_square()).map(|(pc, _)| pc == Piece::Pawn).unwrap_or(false);
+                if !is_pawn || (f as i32 - t as i32).abs() != 16 {
+                    continue;
+                }
+                e.play(m);
+                let replies = e.legal();
+                if replies.iter().any(|r| matches!(r, ChessMove::EnPassant(_))) {
+                    found = true;
+                    break;
+                }
+                e.unplay();
+            }
+            if !found {
+                continue;
+            }
+            e.tally("ep-opportunity-created");
+        }
+        if searching {
+            e.exec("sctx 1");
+            e.exec("search 1 long");
+        }
+        for o in node_ops.iter() {
+            e.exec(o);
+        }
+        // a reversible non-pawn quiet move for each side, out and back
+        let mut played = 0;
+        let mut outs: Vec<ChessMove> = vec![];
+        for ply in 0..4 {
+            let ms = e.legal();
+            let pick = if ply < 2 {
+                let quiet: Vec<&ChessMove> = ms.iter().filter(|m| matches!(m, ChessMove::Standard(_)) && m.captures().is_none()
+                    && e.ctx.board.get(m.from_square()).map(|(pc, _)| pc != Piece::Pawn && pc != Piece::King && pc != Piece::Rook).unwrap_or(false)).collect();
+                let kings: Vec<&ChessMove> = ms.iter().filter(|m| matches!(m, ChessMove::Standard(_)) && m.captures().is_none()
+                    && e.ctx.board.get(m.from_square()).map(|(pc, _)| pc == Piece::King).unwrap_or(false)).collect();
+                // prefer pieces that keep castling rights; fall back to the king when the position holds none
+                if !quiet.is_empty() { Some(quiet[rng.below(quiet.len())].clone()) }
+                else if !kings.is_empty() && p.rights == 0 { Some(kings[rng.below(kings.len())].clone()) }
+                else { None }
+            } else {
+                let out = &outs[ply - 2];
+                ms.iter().find(|m| m.from_square() == out.to_square() && m.to_square() == out.from_square() && m.captures().is_none()).cloned()
+            };
+            match pick {
+                Some(m) => {
+                    if ply < 2 {
+                        outs.push(m.clone());
+                    }
+                    e.play(&m);
+                    played += 1;
+                }
+                None => break,
+            }
+        }
+        if played == 4 {
+            e.tally("revisited-after-expiry");
+            if searching {
+                e.exec("search 1 long");
+            }
+            for o in node_ops.iter() {
+                e.exec(o);
+            }
+            done += 1;
+        }
+    }
+    let _ = done;
 }
 
 /// positions met along random walks (reachable, varied)
@@ -1436,7 +1533,7 @@ pub fn run(kv: &Args) {
                 repetition(&mut e, &mut r, len, undo);
             }
         }
-        "searches" | "perfts" | "games" | "engine" | "cli" | "schedules" => {
+        "searches" | "perfts" | "games" | "engine" | "cli" | "schedules" | "revisits" => {
             let mut positions: Vec<(String, Pos)> = corpus_subset(kv);
             let extra = kv.num("walkpos", 0) as usize;
             let maxp = kv.num("maxpieces", 32) as usize;
@@ -1455,6 +1552,7 @@ pub fn run(kv: &Args) {
                 "games" => games(&mut e, &mut r, kv, &positions),
                 "cli" => cli(&mut e, &mut r, kv, &positions),
                 "schedules" => schedules(&mut e, &mut r, kv, &positions),
+                "revisits" => revisits(&mut e, &mut r, kv, &positions),
                 _ => book_and_engine(&mut e, &mut r, kv, &positions),
             }
         }
